@@ -18,6 +18,20 @@ def scens(ctx, n, files=(1,)):
         s['faults'] = {}
         s['consts'] = {}
         s['cfg'] = {'cacheOn': True, 'silent': True}
+        if ctx.rng.random() < 0.4:
+            # non-idempotent passes: every candidate is interesting and the cursor moves on after a success, so the states
+            # before the last success were never tried on the content the pass ends with
+            s['contract'] = False
+            for k in s['test']:
+                s['test'][k] = 0
+            for p in s['passes']:
+                p['maxT'] = None
+                for k in list(p['tr']):
+                    c, st = k.split('.')
+                    if f'{c}.{int(st) + 1}' in p['tr']:
+                        p['aos'][k] = int(st) + 1
+                    else:
+                        p['aos'].pop(k, None)
         if not s.get('contract'):
             # a pass outside C02's contract (e.g. STOP before the end of the enumeration) makes run_pass depend on the
             # schedule whatever the cache does: such passes are paired under the sequential schedule only
